@@ -496,7 +496,85 @@ def scan_order(eng, res, rule="R-SCAN-ORDER"):
     return n_ob
 
 
+# ---------------------------------------------------------------------------------------------- R-ATOM-TABLE
+def _const_strs(mod, e, depth=3):
+    """set of strings a constant expression denotes as a collection: literals, tuple("abc"), "ab" + "cd", module names"""
+    if isinstance(e, (ast.Tuple, ast.List, ast.Set)):
+        out = set()
+        for x in e.elts:
+            if not (isinstance(x, ast.Constant) and isinstance(x.value, str)):
+                return None
+            out.add(x.value)
+        return out
+    if isinstance(e, ast.Constant) and isinstance(e.value, str):
+        return set(e.value)
+    if isinstance(e, ast.BinOp) and isinstance(e.op, ast.Add):
+        if isinstance(e.left, (ast.Tuple, ast.List)) or isinstance(e.right, (ast.Tuple, ast.List)):
+            a, b = _const_strs(mod, e.left, depth), _const_strs(mod, e.right, depth)
+            return None if a is None or b is None else a | b
+        a, b = _str_of(e.left), _str_of(e.right)
+        return None if a is None or b is None else set(a + b)
+    if isinstance(e, ast.Call) and isinstance(e.func, ast.Name) and e.func.id in ("tuple", "list", "set", "frozenset") and len(e.args) == 1:
+        return _const_strs(mod, e.args[0], depth)
+    if isinstance(e, ast.Name) and depth > 0:
+        for st in mod.tree.body:
+            if isinstance(st, ast.Assign) and any(isinstance(t, ast.Name) and t.id == e.id for t in st.targets):
+                return _const_strs(mod, st.value, depth - 1)
+    return None
+
+
+def _str_of(e):
+    if isinstance(e, ast.Constant) and isinstance(e.value, str):
+        return e.value
+    if isinstance(e, ast.BinOp) and isinstance(e.op, ast.Add):
+        a, b = _str_of(e.left), _str_of(e.right)
+        return None if a is None or b is None else a + b
+    return None
+
+
+ORGANIC = {"B", "C", "N", "O", "P", "S", "F", "I"}
+AROMATIC = {"c", "n", "o", "s", "p"}
+
+
+def atom_table(eng, res, rule="R-ATOM-TABLE"):
+    """Which characters of a token are atoms: the one-letter table holds the organic subset written without brackets
+    and its aromatic forms, the two-letter table Cl and Br, and two letters are tried first ('C' is a prefix of 'Cl').
+    A symbol missing from a table is copied into the fragment text but not counted: every later descriptor of the
+    token is attached one atom too early."""
+    fi = eng.prog.func("token.SmilesToken.__init__")
+    res.unit(fi)
+    cfg = eng.flow(fi).cfg
+    loops = [s for s in fi.node.body if isinstance(s, ast.While)]
+    if not loops:
+        raise AnalysisError("SmilesToken.__init__: scanner loop not found")
+    scan = loops[0]
+    one = two = None
+    for n in ast.walk(scan):
+        if isinstance(n, ast.Compare) and len(n.ops) == 1 and isinstance(n.ops[0], ast.In) and isinstance(n.left, ast.Subscript):
+            sl = n.left.slice
+            if isinstance(sl, ast.Slice) and sl.lower is None and isinstance(sl.upper, ast.Constant) and sl.upper.value == 2:
+                two = n
+            elif isinstance(sl, ast.Constant) and sl.value == 0:
+                one = n
+            elif isinstance(sl, ast.Slice) and sl.lower is None and isinstance(sl.upper, ast.Constant) and sl.upper.value == 1:
+                one = n
+    if one is None or two is None:
+        raise AnalysisError("SmilesToken.__init__: the atom tests of the scanner (one-letter / two-letter) were not identified")
+    t1, t2 = _const_strs(fi.module, one.comparators[0]), _const_strs(fi.module, two.comparators[0])
+    ok = t1 is not None and (ORGANIC | AROMATIC) <= t1 <= (ORGANIC | AROMATIC | {"b"})
+    res.ob(rule, fi, "one-letter-atoms", "the one-letter atom table is B C N O P S F I and the aromatic c n o s p", one, ok,
+           f"table {sorted(t1) if t1 is not None else 'not a constant'}: missing {sorted((ORGANIC | AROMATIC) - (t1 or set()))}, unexpected {sorted((t1 or set()) - ORGANIC - AROMATIC - {'b'})}")
+    ok = t2 == {"Cl", "Br"}
+    res.ob(rule, fi, "two-letter-atoms", "the two-letter atom table is Cl, Br", two, ok, f"table {sorted(t2) if t2 is not None else 'not a constant'}")
+    n2, n1 = cfg.node_of(two), cfg.node_of(one)
+    res.ob(rule, fi, "two-letters-first", "two-letter atoms are tried before one-letter atoms (Cl is not read as C followed by l)", two, n1 not in cfg.reachable([fi and cfg.entry], avoid_nodes={n2}) or cfg.must_pass(n2, n1))
+
+
 def check(eng, res):
+    from ..fresh import fresh_flags
+
+    res.doc("R-FRESH-FLAG", "A-FRESH: no condition flag tested inside a loop keeps its value from a previous iteration")
+    fresh_flags(eng, res, {'token', 'bond'})
     res.doc("R-BRANCH-ORDER", "push/pop of the branch stack are control-dependent on a left-to-right traversal of the text")
     res.doc("R-PREC-PROV", "slice bounds from find/rfind are computed on the sliced string (package-wide); following text stops at ')' and '['")
     res.doc("R-WEIGHT-DEF", "no weight ⇒ 1; single number ⇒ that number; list ⇒ transitions = list, weight = its sum")
@@ -516,6 +594,8 @@ def check(eng, res):
     descr_num(eng, res)
     res.doc("R-SCAN-ORDER", "token scanner: pending text is flushed before every atom and at the end, and the cursor drops exactly the consumed prefix")
     scan_order(eng, res)
+    res.doc("R-ATOM-TABLE", "the scanner's atom tables are the organic subset (with aromatic forms) and Cl/Br, two letters first")
+    atom_table(eng, res)
     res.assumptions += ["RDKit's atom order for a fragment equals the textual atom order of the token (explicit [H] aside)"]
     res.not_decided += [
         "atom / bond content of tokens, descriptor positions for arbitrary nesting beyond the rules above, ring closures, multi-digit ids, float syntaxes",
